@@ -114,6 +114,11 @@ def ops_for(x, level="full"):
         # history inside one step: fuse x (its index objects get hashed), then fuse a conjugate / adjoint copy the same way
         add(Op("fuse((0,1));conj.fuse((0,1))", lambda x: (x.fuse((0, 1)), x.conj().fuse((0, 1)))[1], tags=("fuse",)))
         add(Op("fuse((1,0),(2..));dagger.dagger.fuse", lambda x: (x.fuse((1, 0)), x.dagger().dagger().fuse((1, 0)))[1], tags=("fuse",)))
+    if n >= 2 and any(ix.subinfo is not None for ix in x.indices[:2]):
+        # a second fuse that nests the already fused axis, then a conjugate: nested sub-index info must be conjugated at every level
+        add(Op("fuse((0,1)).conj", lambda x: x.fuse((0, 1)).conj(), tags=("fuse",)))
+        add(Op("fuse((0,1)).conj.unfuse(0).unfuse(0)", lambda x: x.fuse((0, 1)).conj().unfuse(0).unfuse(0), tags=("fuse", "unfuse")))
+        add(Op("fuse((1,0)).dagger.unfuse_all", lambda x: x.fuse((1, 0)).dagger().unfuse_all(), tags=("fuse", "unfuse")))
     for ax in range(n):
         if x.indices[ax].subinfo is not None:
             add(Op(f"unfuse({ax})", lambda x, a=ax: x.unfuse(a), inplace=lambda y, a=ax: y.unfuse(a, inplace=True), tags=("unfuse",)))
@@ -191,6 +196,10 @@ def ops_for(x, level="full"):
     for ax in sorted({0, n - 1}) if n else ():
         add(Op(f"multiply_diagonal(v,{ax})", lambda x, a=ax: x.multiply_diagonal(vector_for(x, a), a), inplace=lambda y, a=ax: y.multiply_diagonal(vector_for(y, a), a, inplace=True)))
         add(Op(f"multiply_diagonal(v-missing,{ax})", lambda x, a=ax: x.multiply_diagonal(vector_for(x, a, True), a)))
+    if n >= 1 and x.blocks and np.asarray(next(iter(x.blocks.values()))).dtype.kind == "f":
+        # a complex diagonal on real data: the product must become complex (type promotion, nothing discarded)
+        add(Op("multiply_diagonal(complex-v,0)", lambda x: x.multiply_diagonal(_complex_vector(x, 0), 0), tags=("promote",)))
+        add(Op("sr.multiply_diagonal(complex-v,-1)", lambda x: sr.multiply_diagonal(x, _complex_vector(x, x.ndim - 1), x.ndim - 1), tags=("promote",)))
     if n >= 1:
         add(Op("align_axes(x,x.conj(),((0,),(0,)))", lambda x: sr.align_axes(x, x.conj(), ((0,), (0,)))))
         add(Op("align_axes(x,x.dagger().sync,((-1,),(0,)))", lambda x: x.align_axes(x.dagger().sync_charges(), ((n - 1,), (0,)))))
@@ -260,6 +269,14 @@ def ops_for(x, level="full"):
             add(Op("autoray.eigh(x+x.H)", lambda x: ar.do("linalg.eigh", _herm(x)), tags=("linalg", "eigh")))
             add(Op("solve(x+6,b)", lambda x: sr.linalg.solve(_dominant(x), _rhs(x)), tags=("linalg", "solve")))
     return ops
+
+
+def _complex_vector(x, axis):
+    import symmray as sr
+
+    dt = np.asarray(next(iter(x.blocks.values()))).dtype
+    cdt = np.complex64 if dt == np.float32 else np.complex128
+    return sr.BlockVector({c: ((np.arange(d) + 1) * (1 + 2j)).astype(cdt) for c, d in x.indices[axis].chargemap.items()})
 
 
 def _sparse(y, offset=0):
